@@ -320,6 +320,10 @@ async fn run_session(
                         let mut p = Map::new();
                         for k in ["read", "write", "delete"] {
                             let pats: Vec<Value> = c[k].as_array().cloned().unwrap_or_default().iter().map(|x| json!(names.key_in(x))).collect();
+                            // a privilege without patterns can be written as an empty list or left out of the token
+                            if pats.is_empty() && b(&item, "omit_empty") {
+                                continue;
+                            }
                             p.insert(k.to_owned(), Value::Array(pats));
                         }
                         mint_token(sec, &full(&Value::Object(p), 4102444800))
